@@ -473,6 +473,7 @@ func (c *caseRun) waitAccepting() {
 // another process can own the port while this case's relay listener is deliberately closed (a
 // detector would then talk to a foreign server and never reach a hold point).
 var portCtr atomic.Int64
+var stuckCases atomic.Int64
 
 func freePort() int {
 	for i := 0; i < 12000; i++ {
@@ -932,6 +933,9 @@ func (c *caseRun) run() {
 	if notes != "" && why == "complete" {
 		why, detail = "harness", notes
 	}
+	if why == "stuck" {
+		stuckCases.Add(1)
+	}
 	c.emit(rec{"e": "endcase", "why": why, "detail": detail, "notes": notes})
 }
 
@@ -1105,6 +1109,7 @@ func main() {
 	wd := flag.Int("watchdog", 40, "watchdog, seconds")
 	mode := flag.String("mode", "cases", "cases | closerace | closerace-child")
 	rounds := flag.Int("rounds", 300, "closerace: rounds")
+	maxStuck := flag.Int("maxstuck", 6, "after this many stuck cases the remaining ones are skipped")
 	flag.Parse()
 	watchdog = time.Duration(*wd) * time.Second
 	log.SetOutput(io.Discard) // fd.go logs every state change; nothing is derived from it
@@ -1160,7 +1165,13 @@ func main() {
 			defer wg.Done()
 			defer func() { <-sem }()
 			c := &caseRun{cs: cs, archs: map[int]*arch{}, dets: map[int]*det{}}
-			c.run()
+			if int(stuckCases.Load()) >= *maxStuck {
+				// every stuck case costs a watchdog period; a systematic hang is reported once
+				c.emit(c.header())
+				c.emit(rec{"e": "endcase", "why": "skipped", "detail": "too many stuck cases before this one", "notes": ""})
+			} else {
+				c.run()
+			}
 			wmu.Lock()
 			for _, r := range c.lines {
 				b, _ := json.Marshal(r)
